@@ -154,7 +154,7 @@ class CmdScenario(wfscn.ProgScenario):
                     'pause a finished root'))
             for st in ('SUCCESS', 'ERROR', 'CANCELLED'):
                 k = 'stop_any:' + st
-                if self._allowed(k) and rstate in FINAL and rstate != st:
+                if self._allowed(k) and rstate in FINAL:
                     out.append(self._mk(k, 'root', self._engine_cmd(
                         'stop_workflow', wf_ex_id=rid, state=st,
                         message='stopped-again'), 'stop a finished root'))
@@ -181,6 +181,15 @@ class CmdScenario(wfscn.ProgScenario):
                         'stop_workflow', wf_ex_id=sid, state=st,
                         message='stopped-by-operator'),
                         'stop %s %s' % (w[3], st)))
+        for i, w in enumerate(subs):
+            sid, sstate = w[0], w[1]
+            for st in ('SUCCESS', 'ERROR', 'CANCELLED'):
+                k = 'stop_sub_any:' + st
+                if self._allowed(k) and sstate in FINAL:
+                    out.append(self._mk(k, 'sub%d' % i, self._engine_cmd(
+                        'stop_workflow', wf_ex_id=sid, state=st,
+                        message='stopped-again'),
+                        'stop the finished %s %s' % (w[3], st)))
         if any(self._allowed(k) for k in ('rerun', 'rerun_noreset', 'skip')):
             ts = q("select id, name, state from task_executions_v2 "
                    "where state in (%s) order by id" % ','.join(
